@@ -180,6 +180,8 @@ static const PmcConfig CFG[] = {
     {"m0n:H|T,T:tdev",           3, {1,1}, {1,1}, {0,0}, {2,2}, ""},
     {"m0n:H|L,i1",               3, {1,2}, {0,0}, {0,0}, {0,0}, "... or the waiter is interrupted inside unlock()"},
     {"m0c:H|T:tdev",             2, {1,2}, {1,1}, {0,0}, {2,3}, ""},
+    {"m0c:gen2x2",               3, {0,0}, {0,0}, {0,0}, {0,0}, "contending mode (unlock clears the owner; a woken waiter may find the mutex taken again and must go back to waiting)"},
+    {"m0c:pLL,pL,pL",            3, {0,0}, {0,0}, {0,0}, {0,0}, ""},
     {"m0n:gen3x1:tdev",          3, {0,0}, {0,1}, {0,0}, {0,0}, "generated: every 3-thread program, one op each from {L,T,Z,Y,i0,i1,i2}, every arrival order"},
     {"m0n:gen2x2",               3, {0,0}, {0,0}, {0,0}, {0,0}, "generated: 2 threads x up to 2 ops"},
     {"m0n:gen3x2",               2, {0,0}, {0,0}, {0,0}, {0,0}, "generated: 3 threads x up to 2 ops"},
